@@ -115,8 +115,14 @@ def run_property(prop, tier, seed, replay_only=None):
         sched = MemSched(float(os.environ.get("VERIF_MEM_GB", "52")), int(os.environ.get("VERIF_PROCS", "12")))
         scale = float(os.environ.get("VERIF_TIMEOUT_SCALE", "1"))
 
+        stop = threading.Event()  # VERIF_FAIL_FAST=1 (mutant campaigns only): skip what has not started once a harness failed
+
         def job(h):
             hspec = registry.H[h]
+            if stop.is_set():
+                r = kani.Result(h)
+                r.reason = "skipped: VERIF_FAIL_FAST and another harness already failed"
+                return r
             root, crate = variants[hspec.get("variant", "default")]
             vkey = hspec.get("variant", "default")
             flags = (hspec.get("fs", 4096), tier == "thorough" and hspec.get("memsafe_thorough", False), hspec.get("extra"))
@@ -127,6 +133,10 @@ def run_property(prop, tier, seed, replay_only=None):
                     return c
             gb = sched.acquire(hspec.get("mem", 8))
             try:
+                if stop.is_set():
+                    r = kani.Result(h)
+                    r.reason = "skipped: VERIF_FAIL_FAST and another harness already failed"
+                    return r
                 r = kani.run_harness(
                     crate, os.path.join(root, "t_" + h), h,
                     int(hspec.get("timeout", 300) * scale), hspec.get("mem", 8) * 2.5,  # address-space limit; declared mem = expected resident size
@@ -149,6 +159,8 @@ def run_property(prop, tier, seed, replay_only=None):
                 h = futs[f]
                 r = f.result()
                 results[h] = r
+                if r.status == "failed" and os.environ.get("VERIF_FAIL_FAST"):
+                    stop.set()
                 print("[%s] %-40s %-12s symex=%s solver=%.1fs wall=%.0fs %s%s" % (
                     prop, h, r.status, r.symex_s, r.solver_s, r.wall_s, r.reason,
                     " (verdict reused: same /repo tree + harness hash, decided %s)" % r.decided_at if r.cached else ""), flush=True)
@@ -248,16 +260,28 @@ def replay_harness(prop, h, fcs, logs_dir):
     crate functions in the dev profile (and release, informational)."""
     hspec = registry.H[h]
     try:
-        root, crate, _ = overlay.build(**registry.VARIANTS[hspec.get("variant", "default")])
+        root, crate, _ = overlay.build(for_replay=True, **registry.VARIANTS[hspec.get("variant", "default")])
     except overlay.Inconclusive as e:
         return False, None, "overlay: %s" % e
     try:
         r = kani.run_harness(crate, os.path.join(root, "t_pb"), h, int(hspec.get("timeout", 300) * 3),
                              hspec.get("mem", 8) * 1.5, os.path.join(logs_dir, h + ".playback.log"),
-                             playback="inplace", extra=hspec.get("extra"), fs=hspec.get("fs", 4096))
+                             playback="print", extra=hspec.get("extra"), fs=hspec.get("fs", 4096))
         if r.status != "failed":
             return False, None, "playback generation run did not fail again (%s %s)" % (r.status, r.reason)
         wanted = set(fc["description"] for fc in fcs)
+        if not r.playback:
+            return False, None, "Kani printed no concrete playback test"
+        # The printed unit tests are appended to the END of the module that defines the harness
+        # (inplace mode would put them inside the macro that generates the harness: one copy per instance).
+        modfile = kani.qualify(h).split("::")[-2] + ".rs"
+        seen_tests = set()
+        with open(os.path.join(crate, "src", "internal", "verif", modfile), "a") as fh:
+            for kind, desc, tname, code in r.playback:
+                if tname in seen_tests:
+                    continue
+                seen_tests.add(tname)
+                fh.write("\n" + code + "\n")
         ran, failed, out = kani.native_playback(crate, "kani_concrete_playback")
         open(os.path.join(logs_dir, h + ".native.log"), "w").write(out)
         if not ran:
@@ -297,7 +321,7 @@ def replay_file(prop, path):
         return smt.replay_file(rp)
     h = rp["harness"]
     hspec = registry.H[h]
-    root, crate, _ = overlay.build(**registry.VARIANTS[rp.get("variant", "default")])
+    root, crate, _ = overlay.build(for_replay=True, **registry.VARIANTS[rp.get("variant", "default")])
     try:
         hdir = os.path.join(crate, "src", "internal", "verif")
         for t in rp["tests"]:
